@@ -218,6 +218,8 @@ package value
 //@   safety C05
 //@ table Mul
 //@   safety C05
+//@   law[C02] commutative
+//@   law[C02] associative
 //@ table Div
 //@   safety C05
 //@ table Mod
@@ -232,10 +234,20 @@ package value
 //@   safety C05
 //@ table Not
 //@   safety C05
+// & and | are compiled to short-circuit code that accepts Bool operands only (GenerateCustom); the optimizer folds
+// constants through these tables, so the tables must not know more than the generated code does
 //@ table And
 //@   safety C05
+//@   law[C02] commutative
+//@   law[C02] associative
+//@   law[C02] only-on Bool
+//@   law[C02] computes-and
 //@ table Or
 //@   safety C05
+//@   law[C02] commutative
+//@   law[C02] associative
+//@   law[C02] only-on Bool
+//@   law[C02] computes-or
 //@ table New
 //@   safety C05
 //@ table createBoolMethods
@@ -308,8 +320,14 @@ package value
 //@   property C01
 //@   safety C04
 //@   requires g != nil && ast != nil
+//@   requires[flags-sound C02] flagsSound(g)
 //@   ensures[compiled-for-context] result2 == nil && result0 != nil ==> fs(result0) == len(gc.am) && cl(result0) == len(gc.cm)
+//@   ensures[purity-flag-sound C02] result2 == nil && result0 != nil && result1 ==> pureFn(result0)
 //@   assigns any []string
-//@   closure-spec "error in getting catch function" as funcGen.ParserFunc attr fs(self) = len(gc.am), cl(self) = len(gc.cm)
-//@   closure-spec "if !a {" as funcGen.ParserFunc attr fs(self) = len(gc.am), cl(self) = len(gc.cm)
-//@   closure-spec "if a {" as funcGen.ParserFunc attr fs(self) = len(gc.am), cl(self) = len(gc.cm)
+//@   closure-spec "error in getting catch function" as funcGen.ParserFunc attr fs(self) = len(gc.am), cl(self) = len(gc.cm), pureFn(self) = (pureFn(tryFunc) && pureFn(catchFunc))
+//@   closure-spec "if !a {" as funcGen.ParserFunc attr fs(self) = len(gc.am), cl(self) = len(gc.cm), pureFn(self) = (pureFn(aFunc) && pureFn(bFunc))
+//@   closure-spec "if a {" as funcGen.ParserFunc attr fs(self) = len(gc.am), cl(self) = len(gc.cm), pureFn(self) = (pureFn(aFunc) && pureFn(bFunc))
+
+// ---------------------------------------------------------------- C02: operators registered as commutative in New
+//@ flags New
+//@   property C02
